@@ -1,0 +1,26 @@
+//go:build verif
+
+// Contracts for the deductive checks kept in /verif (govc). Comments only; see /repo/verif_contracts.go.
+
+package parser
+
+//@ pure isNL(b) = b == '\n' || b == '\r'
+//@ pure singleLine(s) = forall(j, 0, len(s), !isNL(s[j]))
+//@ pure nlLen(s, i) = ite(i >= len(s), 0, ite(s[i] == '\r' && i+1 < len(s) && s[i+1] == '\n', 2, 1))
+
+//@ func NewlineIndex
+//@   ensures index_range: 0 <= index && index <= len(s)
+//@   ensures none_before: forall(j, 0, index, !isNL(s[j]))
+//@   ensures length_range: 0 <= length && length <= 2 && index + length <= len(s)
+//@   ensures no_newline: iff(length == 0, index == len(s))
+//@   ensures at_newline: length > 0 ==> isNL(s[index])
+//@   ensures length_is_sequence: length == nlLen(s, index)
+//@   invariant 0 scanned: 0 <= index && index <= l && l == len(s) && length == 0 && forall(j, 0, index, !isNL(s[j]))
+
+//@ func NextChunk
+//@   ensures chunk_is_prefix: len(chunk) <= len(s) && chunk == substr(s, 0, len(chunk))
+//@   ensures chunk_single_line: singleLine(chunk)
+//@   ensures chunk_maximal: len(chunk) < len(s) ==> isNL(s[len(chunk)])
+//@   ensures has_newline: iff(hasNewline, len(chunk) < len(s))
+//@   ensures remaining_after_newline: remaining == substr(s, len(chunk) + nlLen(s, len(chunk)), len(s))
+//@   ensures remaining_shorter: hasNewline ==> len(remaining) < len(s)
